@@ -99,13 +99,13 @@ FRAMES = [
     # effect the C19 contracts pin down), called unconditionally for every accepted step the integrator reports.
 ] + [
     dict(name=f"{cls}._solve_scipy_dde", props=["C19", "C10", "C03", "C02"], target=f"{fl}::{cls}._solve_scipy_dde", modifies=["kwargs"],
-         callees={"hist.update": dict(mutates=["self"], returns="fresh", via_contract="DDEHistory.update (contracts/c19.py)"),
+         callees={"*.update": dict(mutates=["self"], returns="fresh", via_contract="DDEHistory.update (contracts/c19.py)"),
                   "kwargs.pop": dict(mutates=["self"], returns="fresh"),
                   "ode": S_PURE_FRESH, "*.set_integrator": S_PURE_FRESH, "solver.set_initial_value": S_PURE_FRESH, "solver.set_solout": S_PURE_FRESH,
                   "solver.successful": S_PURE_FRESH, "solver.integrate": S_PURE_FRESH, "np.zeros": S_PURE_FRESH, "np.asarray": S_PURE_FRESH,
                   "func": S_PURE_FRESH, "torch.as_tensor": S_PURE_FRESH, "*.numpy": S_PURE_FRESH, "self._torch_float_dtype": S_PURE_FRESH,
                   "float": S_PURE_FRESH, "len": S_PURE_FRESH, "enumerate": S_SHALLOW, "isinstance": S_PURE_FRESH, "hasattr": S_PURE_FRESH},
-         must_call_in=[("solout", "hist.update(t, y_)")])
+         must_call_in=[("solout", "$H.update($0, $1)")])
     for cls, fl in (("BaseBackend", "pyrates/backend/base/base_backend.py"), ("TorchBackend", "pyrates/backend/torch/torch_backend.py"))
 ] + [
     # ------------------------------------------------------------------------------------------------ C13: reset points
